@@ -10,8 +10,8 @@ from checks import sess_common as sc
 def run(rep, tier, replay):
     return run_family(rep, tier, replay, "C03", mix="steps",
                       probes=["text"],
-                      quick=dict(maxcmd=16, maxbps=2, ncands=3, nhist=10),
-                      thorough=dict(maxcmd=20, maxbps=3, ncands=5, nhist=80))
+                      quick=dict(maxcmd=16, maxbps=2, ncands=3, nhist=10, signals=True),
+                      thorough=dict(maxcmd=20, maxbps=3, ncands=5, nhist=60, signals=True))
 
 
 def pick_cands(p, n, rng):
@@ -61,6 +61,7 @@ def run_family(rep, tier, replay, prop, mix, probes, quick, thorough, by_kinds=F
         for b in builds:
             p = sesslib.Puppet(src, *b)
             p.lifecycle = bool(cfg.get("lifecycle"))
+            p.signals = bool(cfg.get("signals"))
             if p.ambiguous:
                 raise vlib.ToolError(f"{p.key}: {p.ambiguous} (pc, TICK) pairs are not unique; stops cannot be identified")
             cands = pick_cands(p, cfg["ncands"], rng)
